@@ -1048,15 +1048,10 @@ type opTemplate struct {
 	fnSorts  []string
 }
 
-func (c *Ctx) opaqueTemplate(e *Env, p *PureDecl) *opTemplate {
-	if c.opTmpl == nil {
-		c.opTmpl = map[string]*opTemplate{}
-	}
-	if t, ok := c.opTmpl[p.Name]; ok {
-		return t
-	}
+// evalTemplateBody evaluates p's body over placeholders.  With nested set, nested opaque predicates that the current
+// function reveals contribute "atom and body"; otherwise they stay atoms.
+func (c *Ctx) evalTemplateBody(e *Env, p *PureDecl, nested bool) (body string, asserts []string, sorts map[string]string, argSorts []string, nsym0 int) {
 	vars := map[string]Val{}
-	var argSorts []string
 	for i, b := range p.Params {
 		rt := c.resolveType(e.pkg, b.T)
 		vars[b.Name] = Val{T: rt.Go, ST: rt.S, L: []string{fmt.Sprintf("@P%d@", i)}}
@@ -1064,22 +1059,21 @@ func (c *Ctx) opaqueTemplate(e *Env, p *PureDecl) *opTemplate {
 	}
 	st := &State{heap: map[string]string{}, cells: map[*Cell]Val{}, tmpl: map[string]string{}}
 	n := &Env{c: c, st: st, vars: vars, pkg: e.pkg, guard: "true", depth: e.depth + 1}
-	nsym0 := c.nsym
+	nsym0 = c.nsym
 	items0 := len(c.items)
-	savedTop := c.top
-	// nested opaque predicates inside the body stay opaque in the template
-	body := n.evalBool(p.Body)
-	c.top = savedTop
+	savedHide := c.tmplHide
+	c.tmplHide = !nested
+	body = n.evalBool(p.Body)
+	c.tmplHide = savedHide
 	// collect what the evaluation emitted: abbreviations are inlined, facts become templates, declarations stay
 	var keep []Item
 	defs := map[string]string{}
-	t := &opTemplate{sorts: map[string]string{}, rows: map[string][]string{}}
 	for _, it := range c.items[items0:] {
 		switch it.Kind {
 		case "def":
 			defs[it.Name] = it.Body
 		case "assert":
-			t.asserts = append(t.asserts, it.Body)
+			asserts = append(asserts, it.Body)
 		case "decl":
 			c.fail("spec: opaque predicate %s introduces a fresh symbol (%s); not supported", p.Name, it.Name)
 		default:
@@ -1102,11 +1096,28 @@ func (c *Ctx) opaqueTemplate(e *Env, p *PureDecl) *opTemplate {
 		}
 		return s
 	}
-	t.body = expand(body)
-	for i := range t.asserts {
-		t.asserts[i] = expand(t.asserts[i])
+	body = expand(body)
+	for i := range asserts {
+		asserts[i] = expand(asserts[i])
 	}
-	for k, srt := range st.tmpl {
+	return body, asserts, st.tmpl, argSorts, nsym0
+}
+
+// opaqueTemplate: signature (uninterpreted function, footprint rows) and hidden body of p.  Nested opaque predicates
+// are always atoms here, so the signature does not depend on what the function under verification reveals.
+func (c *Ctx) opaqueTemplate(e *Env, p *PureDecl) *opTemplate {
+	if c.opTmpl == nil {
+		c.opTmpl = map[string]*opTemplate{}
+	}
+	if t, ok := c.opTmpl[p.Name]; ok {
+		return t
+	}
+	t := &opTemplate{sorts: map[string]string{}, rows: map[string][]string{}}
+	var argSorts []string
+	var tm map[string]string
+	var nsym0 int
+	t.body, t.asserts, tm, argSorts, nsym0 = c.evalTemplateBody(e, p, false)
+	for k, srt := range tm {
 		t.keys = append(t.keys, k)
 		t.sorts[k] = srt
 	}
@@ -1138,11 +1149,31 @@ func (c *Ctx) opaqueTemplate(e *Env, p *PureDecl) *opTemplate {
 	return t
 }
 
-// evalOpaque: an opaque predicate is an uninterpreted Boolean function of its arguments and of exactly what its
-// body reads from the heap.  Where every read of a component has the form select(C, t) with t free of the body's
-// own bound variables, the function takes those selected rows / cells (location-granular: a change of C elsewhere
-// leaves the application provably unchanged); otherwise it takes the whole component.  The definition is only
-// available where the contract says `reveal` (or at an explicit `unfold`).
+// revealedBody: p's body with the nested predicates revealed by the function under verification expanded.
+// Cached per reveal set (a `uses ... hiding` clause changes it temporarily).
+func (c *Ctx) revealedBody(e *Env, p *PureDecl, t *opTemplate) (string, []string, map[string]string) {
+	var rv []string
+	if c.top != nil {
+		for k, on := range c.top.Reveal {
+			if on {
+				rv = append(rv, k)
+			}
+		}
+	}
+	sortStrings(rv)
+	key := p.Name + "|" + strings.Join(rv, ",")
+	if c.opReveal == nil {
+		c.opReveal = map[string]*opTemplate{}
+	}
+	if r, ok := c.opReveal[key]; ok {
+		return r.body, r.asserts, r.sorts
+	}
+	r := &opTemplate{}
+	r.body, r.asserts, r.sorts, _, _ = c.evalTemplateBody(e, p, true)
+	c.opReveal[key] = r
+	return r.body, r.asserts, r.sorts
+}
+
 func (e *Env) evalOpaque(p *PureDecl, x *ECall) Val {
 	c := e.c
 	if len(p.Params) != len(x.Args) {
@@ -1203,13 +1234,25 @@ func (e *Env) evalOpaque(p *PureDecl, x *ECall) Val {
 	} else {
 		atom = c.define("op_"+p.Name, SBool, app(t.fn, terms...))
 	}
-	if reveal && e.st.tmpl == nil {
+	if reveal && !(e.st.tmpl != nil && c.tmplHide) {
 		// where the definition is revealed the atom stands for "atom and body": assumptions get the body directly
-		// (quantifiers stay in positive position), goals are split into the body's conjuncts by splitGoal
-		body := subst(t.body)
-		for _, a := range t.asserts {
-			if !bound {
-				c.assume("true", subst(a))
+		// (quantifiers stay in positive position), goals are split into the body's conjuncts by splitGoal.
+		// Nested inside another predicate's template the body keeps the outer placeholders.
+		rb, ras, rsorts := c.revealedBody(e, p, t)
+		substR := func(s string) string {
+			s = subst(s)
+			for k, srt := range rsorts {
+				ph := "@C:" + k + "@"
+				if strings.Contains(s, ph) {
+					s = strings.ReplaceAll(s, ph, c.comp(e.st, k, srt))
+				}
+			}
+			return s
+		}
+		body := substR(rb)
+		for _, a := range ras {
+			if !bound && e.st.tmpl == nil {
+				c.assume("true", substR(a))
 			}
 		}
 		return boolVal(tAnd(atom, body))
